@@ -13,8 +13,10 @@ import (
 	"encoding/json"
 	"fmt"
 	"math/rand"
+	"time"
 
 	gmsl "github.com/matrix-org/gomatrixserverlib"
+	"github.com/matrix-org/gomatrixserverlib/spec"
 )
 
 func init() {
@@ -41,6 +43,14 @@ func init() {
 			cur := randomScenarioOf(rng, ver)
 			c09OneRoom(cur)
 			steps := 8 + rng.Intn(33)
+			// how the caller treats the provider and the events in this session (drawn once per session, so that the
+			// random stream of the scenarios does not depend on it)
+			padMode := []string{"none", "none", "after", "interleaved", "before"}[rng.Intn(5)]
+			editing := rng.Intn(2) == 1
+			// the caller uses the provider incrementally: no Clear between two checks whenever the next state names every
+			// (type, state_key) pair the provider holds (AddEvent replaces the entries one by one)
+			incremental := rng.Intn(2) == 1
+			heldPairs := map[string]map[string]bool{}
 			for step := 0; step < steps && line < a.n; step++ {
 				if step > 0 {
 					cur = c09NextScenario(rng, cur)
@@ -48,7 +58,8 @@ func init() {
 				sc := cur
 				v := variant
 				sc.Variant = &v
-				var fresh, sub bool
+				var fresh, sub, sel, keep bool
+				selFrom := "n/a"
 				r := safely(line, func() Result {
 					c, err := concretise(sc, variant)
 					if err != nil {
@@ -59,12 +70,52 @@ func init() {
 						state[j] = internJSON(p)
 					}
 					room := c.Event.RoomID().String()
+					if padMode != "none" && len(state) > 0 {
+						// the caller hands the provider more than the needed state: state events of the types the rules name
+						// under other state keys (and kinds that do not cross), each contradicting the real one
+						odd := c09OddPads(sc.Ver, newAuthIDs(sc.Ver, sc.CTag), state[0].RoomID().String(), 40)
+						for j := range odd {
+							odd[j] = internJSON(odd[j])
+						}
+						var padded []gmsl.PDU
+						switch padMode {
+						case "after":
+							padded = append(append(padded, state...), odd...)
+						case "before":
+							padded = append(append(padded, odd...), state...)
+						default:
+							for _, p := range state {
+								padded = append(padded, p)
+								for _, o := range odd {
+									if o.Type() == p.Type() && p.StateKeyEquals("") {
+										padded = append(padded, o)
+									}
+								}
+							}
+							padded = append(padded, odd[3:]...)
+						}
+						state = padded
+					}
 					ch := checkers[room]
 					if ch == nil {
 						ch = gmsl.NewVerifChecker(identityQuerier, c.Event.RoomID())
 						checkers[room] = ch
 					}
-					got := ch.Check(state, c.Event) == nil
+					pairs := map[string]bool{}
+					for _, p := range state {
+						pairs[p.Type()+"\x00"+*p.StateKey()] = true
+					}
+					keep = incremental && heldPairs[room] != nil
+					for t := range heldPairs[room] {
+						keep = keep && pairs[t]
+					}
+					heldPairs[room] = pairs
+					var got bool
+					if keep {
+						got = ch.CheckKeeping(state, c.Event) == nil
+					} else {
+						got = ch.Check(state, c.Event) == nil
+					}
 					fresh, _ = runAllowed(c)
 					// a fresh Allowed over exactly the state StateNeededForAuth names for the event
 					needed := map[gmsl.StateKeyTuple]bool{}
@@ -82,6 +133,12 @@ func init() {
 						panic(err)
 					}
 					sub = gmsl.Allowed(c.Event, prov, identityQuerier) == nil
+					sel, selFrom = c09SelVerdict(sc, c, only, got, step)
+					if editing {
+						// between two checks the caller reads the contents of the state events through the public accessors
+						// and edits what it got: its copies are its own
+						c09EditAccessorResults(state)
+					}
 					return Result{OK: true, Got: got}
 				})
 				if !r.OK {
@@ -92,7 +149,8 @@ func init() {
 					// the checker may be left half-updated by the panic: the session ends here
 					break
 				}
-				tw.emit(map[string]interface{}{"ver": sc.Ver, "st": sc.St, "ev": sc.Ev, "got": r.Got, "fresh": fresh, "sub": sub,
+				tw.emit(map[string]interface{}{"ver": sc.Ver, "st": sc.St, "ev": sc.Ev, "got": r.Got, "fresh": fresh, "sub": sub, "sel": sel,
+					"selfrom": selFrom, "pad": padMode, "editing": editing, "keep": keep,
 					"variant": variant, "session": session, "step": step, "key": scenarioKey(sc)})
 				line++
 			}
@@ -163,4 +221,94 @@ func c09NextScenario(r *rand.Rand, cur *authScenario) *authScenario {
 func c09OneRoom(sc *authScenario) {
 	sc.St.MixedRooms = false
 	sc.St.Create.Room = "same"
+}
+
+
+// c09SelVerdict: an equivalent new event is built with AddAuthEvents over the needed state (every other step: without the
+// create event where the room ID names it, as callers look the state up there) and judged, as another server would,
+// against the auth events it lists.  Where no such event can be built the verdict of the line is returned.
+func c09SelVerdict(sc *authScenario, c *concreteAuth, only []gmsl.PDU, got bool, step int) (bool, string) {
+	if sc.Ev.Type == "create" || !sc.St.Create.Present || sc.St.Create.Room != "same" {
+		return got, "n/a"
+	}
+	from := "the needed state"
+	held := only
+	if isDomainless(sc.Ver) && step%2 == 1 {
+		from = "the needed state without the create event"
+		held = nil
+		for _, p := range only {
+			if !(p.Type() == "m.room.create" && p.StateKeyEquals("")) {
+				held = append(held, p)
+			}
+		}
+	}
+	prov, err := gmsl.NewAuthEvents(held)
+	if err != nil {
+		panic(err)
+	}
+	verImpl := gmsl.MustGetRoomVersion(gmsl.RoomVersion(sc.Ver))
+	eb := verImpl.NewEventBuilderFromProtoEvent(&gmsl.ProtoEvent{
+		SenderID: string(c.Event.SenderID()), RoomID: c.Event.RoomID().String(), Type: c.Event.Type(), StateKey: c.Event.StateKey(),
+		PrevEvents: c.Event.PrevEventIDs(), Depth: 20, Content: spec.RawJSON(c.Event.Content()), Redacts: c.Event.Redacts(),
+	})
+	if err := eb.AddAuthEvents(prov); err != nil {
+		return got, "n/a"
+	}
+	_, priv := keyFromSeed("c09-builder")
+	built, err := eb.Build(time.Unix(1700000000, 0), spec.ServerName(domainOfID(string(c.Event.SenderID()))), "ed25519:1", priv)
+	if err != nil {
+		return got, "n/a"
+	}
+	listed := map[string]bool{}
+	for _, id := range built.AuthEventIDs() { // (names the implied create event as well)
+		listed[id] = true
+	}
+	var sel []gmsl.PDU
+	for _, p := range only {
+		if listed[p.EventID()] {
+			sel = append(sel, p)
+		}
+	}
+	sp, err := gmsl.NewAuthEvents(sel)
+	if err != nil {
+		panic(err)
+	}
+	return gmsl.Allowed(built, sp, identityQuerier) == nil, from
+}
+
+// c09EditAccessorResults reads the state events through the public content accessors and overwrites what they return.
+func c09EditAccessorResults(state []gmsl.PDU) {
+	for _, p := range state {
+		if !p.StateKeyEquals("") {
+			if p.Type() == "m.room.member" {
+				_, _ = p.Membership()
+			}
+			continue
+		}
+		switch p.Type() {
+		case "m.room.power_levels":
+			for _, get := range []func() (*gmsl.PowerLevelContent, error){p.PowerLevels, func() (*gmsl.PowerLevelContent, error) {
+				c, err := gmsl.NewPowerLevelContentFromEvent(p)
+				return &c, err
+			}} {
+				c, err := get()
+				if err != nil || c == nil {
+					continue
+				}
+				c.Ban, c.Invite, c.Kick, c.Redact, c.UsersDefault, c.EventsDefault, c.StateDefault = 0, 0, 0, 0, 100, 0, 0
+				for _, m := range []map[string]int64{c.Users, c.Events, c.Notifications} {
+					for k := range m {
+						m[k] = 0
+					}
+				}
+				if c.Users != nil {
+					for _, u := range userIDs {
+						c.Users[u] = 100
+					}
+				}
+			}
+		case "m.room.join_rules":
+			_, _ = p.JoinRule()
+		}
+	}
 }
